@@ -34,7 +34,7 @@ RULE = ("front end in {Valet, Porter} x socket in {plain, TLS} x timeout in {1, 
         "(timeout = 8 ticks), then up to 20 idle ticks; 2..3 service rounds per tick in generated order; distinct = "
         "distinct (front, socket, timeout, plans); non-trivial = some connection saw activity later than one timeout "
         "after its accept, or was closed by the timer, or stayed persisted and idle beyond the timeout")
-RULE = __import__("vf.core", fromlist=["rule_add"]).rule_add(RULE, 'also a Valet built without a timeout (its class default)')
+RULE = __import__("vf.core", fromlist=["rule_add"]).rule_add(RULE, 'also a Valet built without a timeout (its class default); also three-phase connections (keep-alive request, silence for several timeouts, a last request that asks to close and is answered some passes later) and TLS connections that complete their handshake late')
 META = {"engine": "D loopback", "technique": "trace invariant over virtual-time activity instants and connection-table changes",
         "level_text": "generated request/stream schedules around the timeout over real loopback sockets, plain and TLS",
         "level_note": "persistence is read from the server's own Requestant.persisted; TLS handshake happens at one virtual instant"}
